@@ -55,7 +55,7 @@ ScoreVerdict(ev) ==
 GridVerdict(ev) ==
   IF ~(ev.obs \in 0..100) THEN "grid:score outside 0.0..10.0: " \o ev.str
   ELSE IF ~ev.ex THEN "grid:score is not a multiple of 0.1: " \o ev.str
-  ELSE IF ev.str # TenthStr(ev.obs) THEN "grid:prints as " \o ev.str
+  ELSE IF ev.str \notin Prints(ev.obs) THEN "grid:prints as " \o ev.str
   ELSE IF ev.sev # V3SeverityBand(ev.obs) THEN "severity:" \o ev.sev \o " for score " \o ev.str
   ELSE "ok"
 
